@@ -158,7 +158,21 @@ func (r *Reader) parseWorkbook() error {
 
 // parseSharedStrings parses the shared strings table.
 func (r *Reader) parseSharedStrings() error {
-	data, err := r.getFileContent("xl/sharedStrings.xml")
+	// The part is identified by its relationship type, not by its name;
+	// fall back to the conventional name when no relationship names it.
+	name := "xl/sharedStrings.xml"
+	if r.rels != nil {
+		for _, rel := range r.rels.Relationship {
+			if strings.HasSuffix(rel.Type, "/sharedStrings") && rel.Target != "" {
+				name = resolveWorkbookTarget(rel.Target)
+				break
+			}
+		}
+	}
+	data, err := r.getFileContent(name)
+	if err != nil && name != "xl/sharedStrings.xml" {
+		data, err = r.getFileContent("xl/sharedStrings.xml")
+	}
 	if err != nil {
 		return err // Shared strings are optional
 	}
@@ -183,6 +197,19 @@ func (r *Reader) parseSharedStrings() error {
 	}
 
 	return nil
+}
+
+// resolveWorkbookTarget turns the Target of a workbook relationship into a
+// ZIP member name: absolute targets ("/xl/...") are package-root relative,
+// all others are relative to the xl/ directory of the workbook part.
+func resolveWorkbookTarget(target string) string {
+	if strings.HasPrefix(target, "/") {
+		return strings.TrimPrefix(target, "/")
+	}
+	if strings.HasPrefix(target, "xl/") {
+		return target
+	}
+	return "xl/" + target
 }
 
 // parseStyles parses the styles file.
